@@ -2983,3 +2983,14 @@ QUERIES["C05"] = QUERIES.get("C05", []) + QUERIES_C05NEW
 # ------------------------------------------------------------------------------------------------
 from queries_c07 import QUERIES_C07  # noqa: E402
 QUERIES["C07"] = QUERIES.get("C07", []) + QUERIES_C07
+
+
+# ------------------------------------------------------------------------------------------------
+# C13: AuthorHeads insert / merge / decode, LatestIterator, has_news_for_us
+# ------------------------------------------------------------------------------------------------
+from queries_c13api import QUERIES_C13API  # noqa: E402
+QUERIES["C13"] = QUERIES.get("C13", []) + QUERIES_C13API
+from queries_c15text import QUERIES_C15TEXT  # noqa: E402
+QUERIES["C15"] = QUERIES.get("C15", []) + QUERIES_C15TEXT
+from queries_c18b import QUERIES_C18B  # noqa: E402
+QUERIES["C18"] = QUERIES.get("C18", []) + QUERIES_C18B
